@@ -203,6 +203,11 @@ def check(run, project):
     run.cover(mode_tests=len(mode_tests), warning_sites=len(warning_sites), functions_with_mode=len(fm))
     run.floor("NI-2", 30, "threaded call sites")
     run.require(len(mode_tests) >= 9, f"C07: only {len(mode_tests)} mode tests found (9 confirmed by hand)")
+    # NI-4 "for an out-of-range value the offending event is emitted first, then the warning": the primitive walker's own
+    # event precedes any warning on every completed path (the path-summary rule of C02-B3, judged here for this clause)
+    from ..roles import MarshalRoles
+    from .c02 import primitive_event_once
+    primitive_event_once(run, MarshalRoles(project), "NI-4")
 
 
 def check_threading(run, project, rule="NI-2"):
